@@ -61,13 +61,19 @@ SPECIAL_BITS = [
 
 def cd_survives(bits):
     """KF-C19-01 model: does the ComplexDouble 're+imi' (bit patterns from double_bits) survive the loader's
-    `re + I*im` through double arithmetic, i.e. re + 0.0*im == re bit for bit (the imaginary part is copied)"""
-    import struct
+    `re + I*im` through double arithmetic, i.e. is re + 0.0*im == re bit for bit (the imaginary part is copied)?
+    Decided on the bit patterns without floating-point arithmetic (which NaN of two NaN operands survives an
+    addition depends on operand order, i.e. on the compiler): NaN real part or non-finite imaginary part -> no;
+    real part -0.0 -> only when 0.0*im is -0.0 (im negative); everything else -> yes."""
     re_b, im_b = bits[:-1].split("+")
-    re = struct.unpack("<d", struct.pack("<Q", int(re_b, 16)))[0]
-    im = struct.unpack("<d", struct.pack("<Q", int(im_b, 16)))[0]
-    out = re + 0.0 * im
-    return struct.pack("<d", out) == struct.pack("<d", re)
+    re, im = int(re_b, 16), int(im_b, 16)
+    if (im >> 52) & 0x7ff == 0x7ff:
+        return False
+    if nan_bits(re_b):
+        return False
+    if re == 0x8000000000000000:
+        return bool(im >> 63)
+    return True
 
 
 def nan_bits(h):
@@ -117,104 +123,161 @@ def doubles():
 
 
 def leaves():
-    return gen.weighted([(5, pools.atoms(True)), (3, doubles()), (2, pools.numbers(True)),
+    return gen.weighted([(5, pools.small_numbers(True)), (5, gen.sym(pools.SYMS)), (3, doubles()),
+                         (2, gen.constant(("pi", "E", "I", "EulerGamma", "Catalan", "GoldenRatio"))),
                          (1, st.sampled_from(["d", "x", ""]).map(lambda n: ["dummy", n])),
-                         (1, st.sampled_from([["symbol", ""], ["symbol", "a b"], ["symbol", "\xff\x00z"], ["symbol", "x" * 40]]))])
+                         (1, st.sampled_from([["symbol", ""], ["symbol", "a b"], ["symbol", "\xff\x00z"], ["symbol", "x" * 40]])),
+                         (4, st.integers(0, 3).map(lambda j: ["ref", j]))])
 
 
-def extra_nodes(ch):
-    """classes the pools grammar does not build"""
-    x = st.sampled_from(["x", "y"]).map(lambda n: ["symbol", n])
-    return st.one_of(
-        st.builds(lambda a, s: ["diff", ["function_symbol", "f", ["list", a, ["symbol", "x"]]], s], ch, x),          # Derivative
-        st.builds(lambda a, s: ["diff", ["function_symbol", "f", ["list", ["mul", 2, s], a]], s], ch, x),             # Subs
-        st.builds(lambda a, s, t: ["diff", ["diff", ["function_symbol", "g", ["list", s, t, a]], s], t], ch, x, x),
-        st.builds(lambda o, a: [o, a], st.sampled_from(["primorial", "primepi", "digamma", "trigamma", "unevaluated_expr",
-                                                         "conjugate", "truncate", "lambertw", "dirichlet_eta"]), ch),
-        st.builds(lambda a, b: ["set_complement", ["reals"], ["finiteset", ["list", a, b]]], ch, ch),
-        st.builds(lambda a, lo, hi: ["set_union", ["list", ["interval", ["integer", lo], ["integer", lo + hi]], ["finiteset", ["list", a]]]],
-                  ch, st.integers(-5, 5), st.integers(1, 5)),
-        st.builds(lambda a, s: ["imageset", s, a, ["integers"]], ch, x),
-        st.builds(lambda a, b, s: ["conditionset", s, ["Lt", a, b]], ch, ch, x),
-        st.builds(lambda a, b, c: ["piecewise", ["list", ["list", a, ["Lt", ["symbol", "x"], 0]], ["list", b, ["Ge", ["symbol", "y"], c]],
-                                                  ["list", c, ["true"]]]], ch, ch, ch),
-        st.builds(lambda a, b: ["contains", a, ["interval", ["integer", 0], ["integer", 3], b, not b]], ch, st.booleans()),
-        st.builds(lambda a, b: ["xor", ["list", ["Lt", a, 1], ["Gt", b, 2], ["Eq", a, b]]], ch, ch),
-        st.builds(lambda a: ["not", ["contains", a, ["interval", ["integer", 0], ["integer", 3]]]], ch),
-    )
-
-
-def body(refs, max_leaves):
-    """expression over leaves and references to earlier definitions"""
-    lf = leaves()
-    if refs:
-        lf = st.one_of(lf, st.sampled_from(refs), st.sampled_from(refs))
-
-    def ext(ch):
-        return st.one_of(pools_ext(ch), pools_ext(ch), extra_nodes(ch))
-    return st.recursive(lf, ext, max_leaves=max_leaves)
-
-
-def pools_ext(ch):
-    lst = lambda lo, hi: st.lists(ch, min_size=lo, max_size=hi).map(lambda xs: ["list"] + xs)
+def typed_grammar(depth):
+    """sorted grammar (scalar expressions E, booleans Bo, sets S) so that constructions are not declined for a sort
+    mismatch; built once.  ["ref", j] placeholders stand for earlier definitions (always scalars)."""
+    xs = st.sampled_from(["x", "y"]).map(lambda n: ["symbol", n])
     real = st.one_of(gen.integer(big=False), gen.rational(big=False), st.sampled_from([["oo"], ["noo"]]),
                      st.sampled_from([0.0, -0.0, 0.5, 2.0, -1.5]).map(lambda f: ["real_double", f]))
-    return st.one_of(
-        st.builds(lambda o, a: [o, a], st.sampled_from(pools.FUN1), ch),
-        st.builds(lambda o, a, b: [o, a, b], st.sampled_from(pools.FUN2), ch, ch),
-        st.builds(lambda o, a, b: [o, a, b], st.sampled_from(["add", "mul", "pow", "sub", "div"]), ch, ch),
-        st.builds(lambda o, xs: [o, xs], st.sampled_from(pools.NARY), lst(2, 4)),
-        st.builds(lambda n, xs: ["function_symbol", n, xs], st.sampled_from(["f", "g", "add", ""]), lst(1, 3)),
-        st.builds(lambda o, a, b: [o, a, b], st.sampled_from(["Eq", "Ne", "Lt", "Le", "Gt", "Ge"]), ch, ch),
-        st.builds(lambda o, xs: [o, xs], st.sampled_from(["and", "or", "xor", "nand", "nor", "xnor"]), lst(2, 3)),
-        st.builds(lambda a: ["not", a], ch),
-        st.builds(lambda a, b: ["contains", a, b], ch, ch),
-        st.builds(lambda a, c1, b: ["piecewise", ["list", ["list", a, c1], ["list", b, ["true"]]]], ch, ch, ch),
-        st.builds(lambda a, b, lo, ro: ["interval", a, b, lo, ro], real, real, st.booleans(), st.booleans()),
-        st.builds(lambda xs: ["finiteset", xs], lst(1, 4)),
-        st.builds(lambda o, xs: [o, xs], st.sampled_from(["set_union", "set_intersection"]), lst(2, 3)),
-        st.builds(lambda a, b: ["set_complement", a, b], ch, ch),
-        st.builds(lambda s, c: ["conditionset", ["symbol", s], c], st.sampled_from(["x", "y"]), ch),
-        st.builds(lambda s, e, b: ["imageset", ["symbol", s], e, b], st.sampled_from(["x", "y"]), ch, ch),
-    )
+    E = leaves()
+    Bo = st.sampled_from([["true"], ["false"]])
+    S = st.sampled_from([["emptyset"], ["universalset"], ["reals"], ["rationals"], ["integers"]])
+    # floor / ceiling / truncate of an infinite or NaN double kill the process (KF-C18-03: mpz_set_d raises SIGFPE); building
+    # the object is not what C19 tests, so these three are applied to symbolic arguments only (ROUND below)
+    fun1 = [f for f in pools.FUN1 if f not in ("floor", "ceiling", "truncate")] + ["primorial", "digamma", "trigamma", "lambertw",
+                                                                                   "dirichlet_eta"]
+    rounding = st.builds(lambda o, x, k, q: [o, ["add", ["mul", ["rational", k, q], x], ["symbol", "t"]]],
+                         st.sampled_from(["floor", "ceiling", "truncate"]), xs, st.integers(1, 9), st.integers(2, 7))
+    for _ in range(depth):
+        e, bo, s = E, Bo, S
+        lst = lambda t, lo, hi: st.lists(t, min_size=lo, max_size=hi).map(lambda v: ["list"] + v)
+        E = st.one_of(
+            e, e, rounding,
+            st.builds(lambda o, a: [o, a], st.sampled_from(fun1), e),
+            st.builds(lambda o, a: [o, a], st.sampled_from(fun1), e),
+            st.builds(lambda o, a, b: [o, a, b], st.sampled_from(pools.FUN2), e, e),
+            st.builds(lambda o, a, b: [o, a, b], st.sampled_from(["add", "mul", "pow", "sub", "div"]), e, e),
+            st.builds(lambda o, v: [o, v], st.sampled_from(pools.NARY), lst(e, 2, 4)),
+            st.builds(lambda n, v: ["function_symbol", n, v], st.sampled_from(["f", "g", "add", ""]), lst(e, 1, 3)),
+            st.builds(lambda a, c, b: ["piecewise", ["list", ["list", a, c], ["list", b, ["true"]]]], e, bo, e),
+            st.builds(lambda a, c, b, c2: ["piecewise", ["list", ["list", a, c], ["list", b, c2]]], e, bo, e, bo),
+            st.builds(lambda a, x: ["diff", ["function_symbol", "f", ["list", a, ["symbol", "x"]]], x], e, xs),        # Derivative
+            st.builds(lambda a, x: ["diff", ["function_symbol", "f", ["list", ["mul", ["integer", 2], x], a]], x], e, xs),           # Subs
+            st.builds(lambda a, x, y: ["diff", ["diff", ["function_symbol", "g", ["list", x, y, a]], x], y], e, xs, xs),
+        )
+        Bo = st.one_of(
+            bo,
+            st.builds(lambda o, a, b: [o, a, b], st.sampled_from(["Eq", "Ne", "Lt", "Le", "Gt", "Ge"]), e, e),
+            st.builds(lambda o, a, b: [o, a, b], st.sampled_from(["Eq", "Ne", "Lt", "Le", "Gt", "Ge"]), e, e),
+            st.builds(lambda o, v: [o, v], st.sampled_from(["and", "or", "xor", "nand", "nor", "xnor"]), lst(bo, 2, 3)),
+            st.builds(lambda a: ["not", a], bo),
+            st.builds(lambda a, b: ["contains", a, b], e, s),
+        )
+        S = st.one_of(
+            s,
+            st.builds(lambda a, b, lo, ro: ["interval", a, b, lo, ro], real, real, st.booleans(), st.booleans()),
+            st.builds(lambda v: ["finiteset", v], lst(e, 1, 4)),
+            st.builds(lambda o, v: [o, v], st.sampled_from(["set_union", "set_intersection"]), lst(s, 2, 3)),
+            st.builds(lambda a, b: ["set_complement", a, b], s, s),
+            st.builds(lambda x, c: ["conditionset", x, c], xs, bo),
+            st.builds(lambda x, a, b: ["imageset", x, a, b], xs, e, s),
+        )
+    return E, Bo, S
+
+
+GRAMMAR = {}
+
+
+def grammar(depth):
+    if depth not in GRAMMAR:
+        GRAMMAR[depth] = typed_grammar(depth)
+    return GRAMMAR[depth]
+
+
+def resolve(r, n):
+    """["ref", j] -> register of definition j mod n (a symbol when there is no earlier definition)"""
+    if isinstance(r, list):
+        if len(r) == 2 and r[0] == "ref" and isinstance(r[1], int):
+            return R(r[1] % n) if n > 0 else ["symbol", "r"]
+        return [resolve(x, n) for x in r]
+    return r
 
 
 SHARE_WRAP = [
-    lambda r: ["add", ["pow", r, 2], ["add", ["mul", 3, r], ["sin", r]]],
+    lambda r: ["add", ["pow", r, ["integer", 2]], ["add", ["mul", ["integer", 3], r], ["sin", r]]],
     lambda r: ["function_symbol", "h", ["list", r, r, ["cos", r]]],
     lambda r: ["finiteset", ["list", ["exp", r], ["mul", ["symbol", "k"], r], ["pow", ["symbol", "k"], r]]],
-    lambda r: ["piecewise", ["list", ["list", r, ["Lt", r, 1]], ["list", ["neg", r], ["true"]]]],
-    lambda r: ["mul", ["pow", ["symbol", "q"], r], ["add", r, ["symbol", "q"]], ["atan2", r, ["symbol", "q"]]],
-    lambda r: ["max", ["list", r, ["mul", 2, r], ["abs", r]]],
+    lambda r: ["piecewise", ["list", ["list", r, ["Lt", r, ["integer", 1]]], ["list", ["neg", r], ["true"]]]],
+    lambda r: ["mul", ["pow", ["symbol", "q"], r], ["mul", ["add", r, ["symbol", "q"]], ["atan2", r, ["symbol", "q"]]]],
+    lambda r: ["max", ["list", r, ["mul", ["integer", 2], r], ["abs", r]]],
 ]
 
 
-@st.composite
-def cases(draw):
-    kind = draw(st.sampled_from(["expr", "expr", "expr", "expr", "matrix", "unsupported"]))
-    if kind == "unsupported":
-        k = draw(st.integers(0, 11))
-        wrap = draw(st.booleans())
-        return {"kind": "expr", "defs": [["ser_unsupported", k]],
-                "root": (["finiteset", ["list", R(0), ["symbol", "x"]]] if wrap else R(0))}
-    n = draw(st.integers(1, 4))
-    defs = []
-    for i in range(n):
-        refs = [R(j) for j in range(i)]
-        defs.append(draw(body(refs, 5)))
-    refs = [R(j) for j in range(n)]
-    if kind == "matrix":
-        r, c = draw(st.integers(0, 3)), draw(st.integers(1, 3))
-        elems = [draw(st.one_of(st.sampled_from(refs), body(refs, 3))) for _ in range(r * c)]
-        return {"kind": "matrix", "defs": defs, "rows": r, "cols": c, "elems": elems}
-    w = draw(st.integers(0, len(SHARE_WRAP) + 1))
-    if w < len(SHARE_WRAP):
-        root = SHARE_WRAP[w](draw(st.sampled_from(refs)))
-        if draw(st.booleans()):
-            root = ["add", root, draw(body(refs, 3))]
-    else:
-        root = draw(body(refs, 6))
-    return {"kind": "expr", "defs": defs, "root": root}
+def cases():
+    E2, B2, S2 = grammar(2)
+    E3, B3, S3 = grammar(3)
+    unsupported = st.builds(lambda k, wrap: {"kind": "expr", "defs": [["ser_unsupported", k]],
+                                             "root": (["finiteset", ["list", R(0), ["symbol", "x"]]] if wrap else R(0))},
+                            st.integers(0, 11), st.booleans())
+    # multi-limb integers, big rationals / complexes enter as whole definitions (function arguments stay small)
+    defs = st.lists(st.one_of(E2, E2, E2, pools.numbers(True)), min_size=1, max_size=4).map(
+        lambda ds: [resolve(d, i) for i, d in enumerate(ds)])
+
+    def mk_expr(ds, w, j, tail, free):
+        n = len(ds)
+        if w < len(SHARE_WRAP):
+            root = SHARE_WRAP[w](R(j % n))
+            if tail is not None:
+                root = ["add", root, resolve(tail, n)]
+        else:
+            root = resolve(free, n)
+        return {"kind": "expr", "defs": ds, "root": root}
+    expr = st.builds(mk_expr, defs, st.integers(0, len(SHARE_WRAP) + 2), st.integers(0, 3), st.one_of(st.none(), E2),
+                     st.one_of(E3, E3, B3, S3))
+
+    def mk_matrix(ds, r, c, elems):
+        n = len(ds)
+        return {"kind": "matrix", "defs": ds, "rows": r, "cols": c, "elems": [resolve(e, n) for e in elems[:r * c]]}
+    matrix = st.builds(mk_matrix, defs, st.integers(0, 3), st.integers(1, 3),
+                       st.lists(st.one_of(st.integers(0, 3).map(lambda j: ["ref", j]), E2), min_size=9, max_size=9))
+    return gen.weighted([(12, expr), (2, matrix), (1, unsupported)])
+
+
+def class_tour():
+    """one construction per class of SUPPORTED (deterministic part of the domain: every serialisable class is visited in every run)"""
+    x, y, z = ["symbol", "x"], ["symbol", "y"], ["symbol", "z"]
+    half = ["rational", 1, 2]
+    arg = ["add", x, half]
+    one = {"Log": "log", "Conjugate": "conjugate", "Sign": "sign", "Floor": "floor", "Ceiling": "ceiling", "Truncate": "truncate",
+           "Sin": "sin", "Cos": "cos", "Tan": "tan", "Cot": "cot", "Csc": "csc", "Sec": "sec", "ASin": "asin", "ACos": "acos",
+           "ASec": "asec", "ACsc": "acsc", "ATan": "atan", "ACot": "acot", "Sinh": "sinh", "Csch": "csch", "Cosh": "cosh",
+           "Sech": "sech", "Tanh": "tanh", "Coth": "coth", "ASinh": "asinh", "ACsch": "acsch", "ACosh": "acosh", "ATanh": "atanh",
+           "ACoth": "acoth", "ASech": "asech", "LambertW": "lambertw", "Dirichlet_eta": "dirichlet_eta", "Erf": "erf",
+           "Erfc": "erfc", "Gamma": "gamma", "LogGamma": "loggamma", "Abs": "abs", "PrimePi": "primepi", "Primorial": "primorial",
+           "UnevaluatedExpr": "unevaluated_expr"}
+    two = {"ATan2": "atan2", "Zeta": "zeta2", "KroneckerDelta": "kronecker_delta", "LowerGamma": "lowergamma",
+           "UpperGamma": "uppergamma", "Beta": "beta", "PolyGamma": "polygamma"}
+    ival = ["interval", ["integer", 0], ["rational", 7, 2], True, False]
+    tour = [(c, [op, arg]) for c, op in one.items()] + [(c, [op, x, ["add", y, half]]) for c, op in two.items()]
+    tour += [
+        ("LeviCivita", ["levi_civita", ["list", x, y, z]]), ("Max", ["max", ["list", x, y, half]]), ("Min", ["min", ["list", x, y]]),
+        ("Equality", ["Eq", x, y]), ("Unequality", ["Ne", x, y]), ("LessThan", ["Le", x, y]), ("StrictLessThan", ["Lt", x, y]),
+        ("Symbol", x), ("Dummy", ["dummy", "u"]), ("Mul", ["mul", ["mul", x, y], ["pow", z, half]]), ("Add", ["add", ["add", x, y], half]),
+        ("Pow", ["pow", x, y]), ("Integer", ["integer", -2 ** 130 - 7]), ("RealDouble", ["real_double_bits", "400921fb54442d18"]),
+        ("Rational", ["rational", -2 ** 70 - 1, 3 ** 50]), ("Complex", ["complex", ["rational", 1, 3], ["integer", -5]]),
+        ("ComplexDouble", ["complex_double_bits", "3ff8000000000000", "c004000000000000"]), ("Interval", ival),
+        ("BooleanAtom", ["true"]), ("Infty", ["oo"]), ("Infty", ["noo"]), ("Infty", ["zoo"]), ("NaN", ["nan"]),
+        ("Constant", ["constant", "EulerGamma"]), ("And", ["and", ["list", ["Lt", x, y], ["Gt", x, z]]]),
+        ("Or", ["or", ["list", ["Lt", x, y], ["Gt", x, z]]]), ("Xor", ["xor", ["list", ["Lt", x, y], ["Gt", x, z]]]),
+        ("Not", ["not", ["contains", x, ival]]), ("Contains", ["contains", x, ival]),
+        ("Piecewise", ["piecewise", ["list", ["list", x, ["Lt", x, y]], ["list", ["sin", x], ["Gt", x, z]], ["list", half, ["true"]]]]),
+        ("Reals", ["reals"]), ("Rationals", ["rationals"]), ("EmptySet", ["emptyset"]), ("Integers", ["integers"]),
+        ("UniversalSet", ["universalset"]), ("Union", ["set_union", ["list", ival, ["finiteset", ["list", x, ["integer", 9]]]]]),
+        ("Complement", ["set_complement", ["reals"], ["finiteset", ["list", x, y]]]),
+        ("ImageSet", ["imageset", x, ["mul", ["integer", 2], x], ["integers"]]), ("FiniteSet", ["finiteset", ["list", x, half, ["sin", y]]]),
+        ("ConditionSet", ["conditionset", x, ["and", ["list", ["Lt", ["sin", x], half], ["contains", x, ival]]]]),
+        ("FunctionSymbol", ["function_symbol", "F", ["list", x, ["mul", x, y], half]]),
+        ("Derivative", ["diff", ["function_symbol", "f", ["list", x, y]], x]),
+        ("Subs", ["diff", ["function_symbol", "f", ["list", ["mul", ["integer", 2], x], y]], x]),
+    ]
+    return tour
 
 
 def special_cases():
@@ -229,6 +292,9 @@ def special_cases():
             out.append({"kind": "expr", "defs": [["complex_double_bits", b2, b]], "root": ["finiteset", ["list", R(0), ["symbol", "x"]]]})
     for k in range(12):
         out.append({"kind": "expr", "defs": [["ser_unsupported", k]], "root": R(0)})
+    for cls, r in class_tour():
+        out.append({"kind": "expr", "defs": [r], "root": R(0), "tour": cls})
+        out.append({"kind": "expr", "defs": [r], "root": ["function_symbol", "h", ["list", R(0), ["symbol", "w"], R(0), R(0)]], "tour": cls})
     return out
 
 
@@ -237,6 +303,7 @@ class C19(Check):
     exe = "driver_ser"
     builds = [("main", ("driver_ser",))]
     timeout = 30.0
+    case_timeout = 12
     rule = ("objects built from 1-4 definitions (grammar over every class with a save_basic and a reachable load_basic overload "
             "of serialize-cereal.h: numbers of every kind incl. multi-limb integers and doubles from raw bit patterns -- +-0.0, "
             "subnormals, +-inf, NaN payloads, also as ComplexDouble parts --, symbols, dummies, constants, Add/Mul/Pow, all "
@@ -265,6 +332,15 @@ class C19(Check):
         except (ValueError, OSError):
             pass
 
+    def run(self, stmts, timeout=None):
+        # The archive identifies nodes by address; accessors hand it temporaries (Rational::get_num, Complex parts).  ASan's
+        # quarantine would keep freed temporaries from ever being re-allocated at the same address, hiding the very reuse that
+        # _keep_alive exists for; with the quarantine off the allocator recycles chunks like a production malloc.
+        if self.drv is None:
+            self.drv = engine.Driver(self.variant, self.exe, self.timeout,
+                                     env={"ASAN_OPTIONS": engine.ASAN_OPTIONS + ":quarantine_size_mb=0:thread_local_quarantine_size_kb=0"})
+        return self.drv.run(stmts, timeout)
+
     def enumerate(self, tier):
         return special_cases()
 
@@ -275,7 +351,8 @@ class C19(Check):
     def judge(self, case):
         if case["kind"] == "matrix":
             return self.judge_matrix(case)
-        stmts = [["let", d] for d in case["defs"]]
+        defs = self.usable_defs(case["defs"])
+        stmts = [["let", d] for d in defs]
         k = len(stmts)
         stmts.append(["id", case["root"]])                # k   raw dump of e
         stmts.append(["dumps", R(k)])                     # k+1
@@ -299,6 +376,8 @@ class C19(Check):
             self.skip("build:" + (res[k].get("exc", "?") if isinstance(res[k], dict) else "?"))
             return
         cl = classes_of(e)
+        if case.get("tour") and case["tour"] not in cl:
+            raise engine.GeneratorDefect("class tour entry for %s builds %s" % (case["tour"], sorted(cl)))
         unsup = sorted(c for c in cl if c not in SUPPORTED)
         for c in cl:
             self.cls(c)
@@ -359,8 +438,22 @@ class C19(Check):
                 self.cls("~doubles")
             self.sample({"case": case, "str": res[k + 11]})
 
+    def usable_defs(self, defs):
+        """definitions whose construction throws or is declined (the grammar is broad) are replaced by a symbol, so that
+        the rest of the case is still judged"""
+        defs = list(defs)
+        for _ in range(len(defs) + 1):
+            res = self.run([["let", d] for d in defs])
+            bad = [i for i, r in enumerate(res) if is_exc(r) and r["exc"] != "Dep"]
+            if not bad:
+                break
+            for i in bad:
+                self.skip("def_replaced:" + res[i]["exc"])
+                defs[i] = ["symbol", "d%d" % i]
+        return defs
+
     def judge_matrix(self, case):
-        stmts = [["let", d] for d in case["defs"]]
+        stmts = [["let", d] for d in self.usable_defs(case["defs"])]
         k = len(stmts)
         for el in case["elems"]:
             stmts.append(["let", el])
@@ -387,6 +480,12 @@ class C19(Check):
                 self.skip("assert_seen")
                 return
             raise Violation("DenseMatrix dumps/loads throws %s (%s) for elements of supported classes" % (m["exc"], m.get("what", "")[:200]))
+        if self.tag_active("complexdouble_reload_arith"):
+            for i in range(n):
+                bl = res[k + n + 2 + 2 * i]
+                if isinstance(bl, list) and any(x.endswith("i") and not cd_survives(x) for x in bl):
+                    self.skip("known:complexdouble_reload_arith")
+                    return
         self.cls("DenseMatrix")
         if m["rows"] != case["rows"] or m["cols"] != case["cols"]:
             raise Violation("DenseMatrix shape changed: %dx%d -> %dx%d" % (case["rows"], case["cols"], m["rows"], m["cols"]))
